@@ -13,7 +13,7 @@ from sa.report import Ctx
 
 from .common import generic_sweeps
 
-from .graph_common import edge_wrapper_adjacency
+from .graph_common import edge_wrapper_adjacency, edge_wrapper_returns_generic
 from .sat_common import _enclosing_block
 
 EXPLANATION = (
@@ -295,6 +295,19 @@ def _check_floyd_relaxation(ctx, f, cfg, gv, one):
         ranges.append(ast.unparse(n.ast.iter) if n.kind == "for" else "?")
         n = n.loop
     ctx.ob("C11-O5", "R19 LOOP-NEST-ROLE", f, "every ordered pair (i, j), the diagonal included, is relaxed for every intermediate vertex", ranges == ["range(n)"] * 3, f"loop ranges (innermost first) {ranges}: the negative-cycle verdict reads dist[i][i], so a cell range that skips the diagonal (or any ordered pair) leaves the verdict and the distances unrelaxed", node=relax[0])
+    # the relaxation test is reached for every (k, i, j): nothing inside the three loops stands in front of it.  A pivot
+    # or a row skipped "because it cannot matter" (no outgoing edge in the edge list, an infinite dist[i][k]) is an
+    # argument about the data, and the first kind is wrong for undirected input, where the table holds both orientations
+    at_ = {a_ for a_ in gv.guard_atoms(cfg.stmt_node_containing(t), stable_only=False) if not a_.startswith(("IN-LOOP:", "AFTER-LOOP:"))}
+    outer = cfg.stmt_node_containing(t).loop
+    while outer is not None and outer.loop is not None:
+        outer = outer.loop
+    before_ = {a_ for a_ in gv.guard_atoms(outer, stable_only=False)} if outer is not None else set()
+    # a skip that the relaxation test itself implies is no cut-off: with an infinite leg the sum is never smaller
+    legs = [ast.unparse(a), ast.unparse(b)] if ok else []
+    implied = {atom_of(f"{x_} {op_} {inf_}") for x_ in legs for op_ in ("!=", "<") for inf_ in ("float('inf')", "inf", "INF", "math.inf")} | {f"T:isfinite({x_})" for x_ in legs} | {f"T:math.isfinite({x_})" for x_ in legs}
+    inside = sorted(at_ - before_ - implied)
+    ctx.ob("C11-O5", "R12 NO-CARDINALITY-CUTOFF", f, "inside the triple loop the relaxation test is reached unconditionally (no pivot, row or cell is skipped)", not inside, f"skipped under {inside}: distances that run through a skipped pivot stay too large and the status stays OPTIMAL", node=relax[0])
     ok2 = ast.unparse(t.comparators[0]) == f"dist[{i_}][{j_}]" and isinstance(t.ops[0], ast.Lt) and any(ast.unparse(s) == f"dist[{i_}][{j_}] = dist[{i_}][{k1}] + dist[{k1}][{j_}]" for s in relax[0].body)
     ctx.ob("C11-O5", "R19 LOOP-NEST-ROLE", f, "relaxation compares and stores the same cell", ok2, "", node=relax[0])
 
@@ -470,6 +483,7 @@ def check_loop_and_exit_shapes(ctx: Ctx):
     ctx.ob("C11-O1", "R14 GATE", de, "with a target dijkstra_edges hands the query (source, target, successor lists) to dijkstra; without one it runs the all-distances search", okd, "", node=dele[0] if dele else de.node)
     for wname in ("bfs_edges", "dfs_edges"):
         ctx.step(edge_wrapper_adjacency, "C11-O1", ctx.func("bfs", wname), wname)
+        ctx.step(edge_wrapper_returns_generic, "C11-O1", ctx.func("bfs", wname), wname, wname[: -len("_edges")])
     from .sat_common import _need as _need_w
 
     for wname, gen in (("bfs_edges", "bfs"), ("dfs_edges", "dfs")):
@@ -686,7 +700,29 @@ def _v_as_goal_before_cost_cut(tree):
     _v_goal_before_cost_cut(tree, "astar")
 
 
+def _v_grid_budget_capped(tree):
+    g = M.find_func(tree, "astar_grid")
+    M.insert(g, "h_name = heuristic", "max_iter = min(max_iter, sum(1 for row in grid for cell in row if cell not in blocked_set))")
+
+
+def _v_floyd_skips_sink_pivots(tree):
+    g = M.find_func(tree, "floyd_warshall")
+    loop = [x for x in ast.walk(g) if isinstance(x, ast.For) and M.src_is(x.target, "k")]
+    if not loop:
+        raise M.Skip("pivot loop not found")
+    loop[0].body[0:0] = M.stmts("if k not in has_out:\n    continue")
+    M.insert(g, "for k in range(n)", "has_out = {u for u, _, _ in edges}")
+
+
+def _v_bfs_edges_own_answer(tree):
+    g = M.find_func(tree, "bfs_edges")
+    g.body[1:1] = M.stmts("if source == target:\n    return Result([source], 0, 0, 0)") if isinstance(g.body[0], ast.Expr) else M.stmts("if source == target:\n    return Result([source], 0, 0, 0)")
+
+
 VARIANTS = [
+    M.Variant("astar_grid lowers the caller's iteration budget to the number of passable cells (seed C11-S)", AS, _v_grid_budget_capped, "C11-G17"),
+    M.Variant("floyd_warshall skips pivots that no listed edge leaves (seed C11-T)", FW, _v_floyd_skips_sink_pivots, "C11-O5"),
+    M.Variant("bfs_edges answers source == target by itself", BS, _v_bfs_edges_own_answer, "C11-O1"),
     M.Variant("dijkstra tests the goal before the cost limit (original defect)", DJ, _v_dj_goal_before_cost_cut, "C11-O2"),
     M.Variant("astar tests the goal before the cost limit (original defect)", AS, _v_as_goal_before_cost_cut, "C11-O2"),
     M.Variant("grid fast-fail scans the 4-neighbourhood in both modes (seed C11-A)", AS, _v_grid_fast_fail, "C11-O6"),
